@@ -832,7 +832,8 @@ func (s *State) extendFunctionEnv(
 		pval := object.Value(args[paramIdx])
 		needVariable := true
 		// (all caps names are constants and extension names can't be set: they go through the checked setter, never a register.)
-		if !s.NoReg && pval.Type() == object.INTEGER && env.HasRegisters() && registerName(env, param.Value().Literal()) {
+		if !s.NoReg && pval.Type() == object.INTEGER && env.HasRegisters() && registerName(env, param.Value().Literal()) &&
+			!repeatedParam(params, paramIdx) {
 			// We will release all these registers just by returning/dropping the env.
 			_, nbody, ok := setupRegister(env, param.Value().Literal(), pval.(object.Integer).Value, newBody)
 			if ok {
@@ -927,6 +928,18 @@ func (s *State) evalIfExpression(ie *ast.IfExpression) object.Object {
 	default:
 		return s.NewError("condition is not a boolean: " + condition.Inspect())
 	}
+}
+
+// repeatedParam tells if the name of params[idx] is used by another parameter too (func(a, a)): such parameters
+// are plain variables, the last one wins, with and without registers.
+func repeatedParam(params []ast.Node, idx int) bool {
+	name := params[idx].Value().Literal()
+	for i, p := range params {
+		if i != idx && p.Value().Literal() == name {
+			return true
+		}
+	}
+	return false
 }
 
 // registerName tells if a variable of that name may live in a register: constants and extension function names
